@@ -320,7 +320,7 @@ class HTr:
 
     def call(self, e):
         f = e.func
-        if isinstance(f, ast.Name) and f.id in self.d.funcs.get(self.cls, ()) and f.id not in self.env:
+        if isinstance(f, ast.Name) and f.id in ('ba2int', 'int2ba') and f.id in self.d.funcs.get(self.cls, ()) and f.id not in self.env:
             if [(k.arg, ast.unparse(k.value)) for k in e.keywords] != [('signed', 'False')]:
                 raise Untranslatable(f'{f.id}: only signed=False is declared')
             if f.id == 'ba2int' and len(e.args) == 1:
@@ -340,9 +340,17 @@ class HTr:
             raise Untranslatable('keyword arguments')
         if isinstance(f, ast.Name) and f.id == 'len' and 'len' not in self.env and len(e.args) == 1:
             v, t = self.expr(e.args[0])
+            if t == BITS:
+                return f'({self.s}.bitBuf {v}).length', NAT
             if t != REFS:
                 raise Untranslatable(f'len of a {t}')
             return f'({self.s}.refBuf {v}).length', NAT
+        if isinstance(f, ast.Name) and f.id == 'bitarray' and 'bitarray' in self.d.funcs.get(self.cls, ()) and f.id not in self.env and len(e.args) == 1 \
+                and not e.keywords:
+            v, t = self.expr(e.args[0])                      # bitarray(x): a NEW plain array with the items of x
+            if t != BITS:
+                raise Untranslatable(f'bitarray of a {t}')
+            return self.step_state(f'Py.Heap.copyBits {self.s} {v}', 'b'), BITS
         if isinstance(f, ast.Name):
             cname = self.cls if (f.id == 'cls' and self.classmethod) else f.id
             c = self.d.classes.get(cname)
@@ -361,6 +369,11 @@ class HTr:
             term = f'{fn} {self.s} {" ".join(v for v, _ in args)}'
             return (self.bind_state(term, 'o') if raises else self.step_state(term, 'o')), OBJ(cname)
         if isinstance(f, ast.Attribute):
+            if f.attr == 'tobytes' and not e.args and not e.keywords:
+                base, bt = self.expr(f.value)
+                if bt != BITS:
+                    raise Untranslatable(f'tobytes of a {bt}')
+                return f'(bitsToBytes ({self.s}.bitBuf {base}))', 'bytesval'
             if f.attr == 'copy' and not e.args:
                 base, bt = self.expr(f.value)
                 if bt == BITS:
@@ -413,7 +426,7 @@ class HTr:
                     if t != pt:
                         raise Untranslatable(f'call of {cname}.{f.attr}: argument {pn} is a {t}')
                     args.append(v)
-            pre = 'o' if info['ret'].startswith('obj:') else 'b' if info['ret'] == BITS else 'i'
+            pre = 'o' if info['ret'].startswith('obj:') else 'b' if info['ret'] == BITS else 'y' if info['ret'] == 'bytesval' else 'i'
             return self.bind_state(' '.join([f'{info["lean"]} H {self.s} {base}'] + args), pre), info['ret']
         raise Untranslatable(f'call {ast.unparse(e)[:60]}')
 
@@ -444,13 +457,13 @@ class HTr:
             if self.in_loop:
                 raise Untranslatable('return inside a loop')
             v, t = self.expr(s.value)
-            if not t.startswith('obj:') and t not in (BITS, INT):
+            if not t.startswith('obj:') and t not in (BITS, INT, 'bytesval'):
                 raise Untranslatable(f'the method returns a {t}')
             self.ret = t
             self.lines.append(f'some ({self.s}, {v})')
             return
-        if isinstance(s, ast.If):
-            if s.orelse or len(s.body) != 1 or not isinstance(s.body[0], ast.Raise):
+        if isinstance(s, ast.If) and len(s.body) == 1 and isinstance(s.body[0], ast.Raise):
+            if s.orelse:
                 raise Untranslatable('if statement other than `if c: raise`')
             n_lines = len(self.lines)
             c, t = self.expr(s.test)
@@ -476,6 +489,47 @@ class HTr:
             self.lines.append(f'(Py.Heap.extendBits? {self.s} {tgt} {v}).bind fun {r} =>')
             self.k += 1
             self.lines.append(f'let {self.s} := {r}')
+            return self.block(rest)
+        if (isinstance(s, ast.Expr) and isinstance(s.value, ast.Call) and isinstance(s.value.func, ast.Attribute) and s.value.func.attr in ('append', 'fill')
+                and not s.value.keywords and isinstance(s.value.func.value, ast.Name) and self.env.get(s.value.func.value.id, (None, None))[1] == BITS):
+            tgt = self.env[s.value.func.value.id][0]         # on a LOCAL bit array pointer: in place on whatever container it points to
+            a = s.value.args
+            if s.value.func.attr == 'append' and len(a) == 1 and isinstance(a[0], ast.Constant) and a[0].value in (0, 1) and not isinstance(a[0].value, bool):
+                term = f'Py.Heap.appendBit {self.s} {tgt} {"true" if a[0].value else "false"}'
+            elif s.value.func.attr == 'fill' and not a:
+                term = f'Py.Heap.fillBits {self.s} {tgt}'
+            else:
+                raise Untranslatable(f'statement {ast.unparse(s)[:50]}')
+            self.k += 1
+            self.lines.append(f'let {self.s} := {term}')
+            return self.block(rest)
+        if isinstance(s, ast.If) and not s.orelse and not any(isinstance(n, (ast.Raise, ast.Return, ast.Assign, ast.AugAssign, ast.AnnAssign, ast.Delete, ast.For, ast.If))
+                                                               for b in s.body for n in ast.walk(b)):
+            n_lines = len(self.lines)                        # `if c: <in-place statements>`: the heap after it is one or the other
+            if isinstance(s.test, ast.BinOp) and isinstance(s.test.op, ast.Mod) and isinstance(s.test.right, ast.Constant) and isinstance(s.test.right.value, int) \
+                    and not isinstance(s.test.right.value, bool) and s.test.right.value > 0:
+                v, t = self.expr(s.test.left)
+                if t != NAT:
+                    raise Untranslatable(f'modulus of a {t}')
+                c = f'(decide ({v} % {s.test.right.value} ≠ 0))'
+            else:
+                c, t = self.expr(s.test)
+                if t != BOOL:
+                    raise Untranslatable('condition')
+            if len(self.lines) != n_lines:
+                raise Untranslatable('condition')
+            sub = HTr.__new__(HTr)
+            sub.__dict__.update(self.__dict__)
+            sub.env = dict(self.env)
+            sub.lines, sub.in_loop = [], True
+            sub.block(list(s.body))
+            if not sub.lines[-1].startswith('some ') or any('.bind fun' in l for l in sub.lines):
+                raise Untranslatable('if body may raise')
+            self.n = sub.n
+            prev = self.s
+            self.k = sub.k + 1
+            body = ' '.join(l + ';' for l in sub.lines[:-1]) + ' ' + sub.lines[-1][5:]
+            self.lines.append(f'let {self.s} := if {c} then ({body.strip()}) else {prev}')
             return self.block(rest)
         if isinstance(s, ast.Delete) and len(s.targets) == 1:
             bp = self.bits_prefix(s.targets[0])
@@ -583,7 +637,7 @@ class HTr:
         text = ' '.join(ast.unparse(self.fn).split()).replace('-/', '- /').replace('/-', '/ -')
         body = '\n'.join('  ' + l for l in self.lines)
         extra = ''.join(f' ({pn} : {LEAN_T.get(pt, "Nat")})' for pn, pt in self.params)
-        rt = 'Int' if self.ret == INT else 'Nat'
+        rt = 'Int' if self.ret == INT else 'Bytes' if self.ret == 'bytesval' else 'Nat'
         return dict(lean=lean, ret=self.ret, params=list(self.params),
                     text=f'/-- {self.cls}.{self.fn.name}\n    source: `{text[:240]}` -/\n'
                          f'def {lean} (H : Bytes → Bytes) (σ : State) (self : Nat){extra} : Option (State × {rt}) :=\n{body}\n')
